@@ -1,0 +1,96 @@
+//go:build verif
+
+package memfs
+
+import (
+	"encoding/hex"
+	"fmt"
+	"io/fs"
+	"sort"
+	"strings"
+)
+
+func verifHex(s string) string {
+	if s == "" {
+		return "-"
+	}
+
+	return hex.EncodeToString([]byte(s))
+}
+
+// verifPerm converts a fs.FileMode to the 12 Linux permission bits.
+func verifPerm(m fs.FileMode) uint32 {
+	p := uint32(m.Perm())
+	if m&fs.ModeSticky != 0 {
+		p |= 0o1000
+	}
+
+	if m&fs.ModeSetgid != 0 {
+		p |= 0o2000
+	}
+
+	if m&fs.ModeSetuid != 0 {
+		p |= 0o4000
+	}
+
+	return p
+}
+
+// VerifDump returns the node graph reachable from the root of this view, nodes numbered by first visit
+// (depth first, children in name order), with the stored attributes of every node (verification hook).
+func (vfs *MemFS) VerifDump() string {
+	seen := map[node]int{}
+	var lines []string
+
+	var visit func(nd node)
+	visit = func(nd node) {
+		if _, ok := seen[nd]; ok {
+			return
+		}
+
+		me := len(seen)
+		seen[nd] = me
+
+		switch c := nd.(type) {
+		case *fileNode:
+			lines = append(lines, fmt.Sprintf("%d:f:%o:%d:%d:m%d:%d:%d:%s", me, verifPerm(c.mode), c.uid, c.gid, c.mtime,
+				c.nlink, c.id, verifHex(string(c.data))))
+		case *symlinkNode:
+			lines = append(lines, fmt.Sprintf("%d:l:%o:%d:%d:m%d:%s", me, verifPerm(c.mode), c.uid, c.gid, c.mtime, verifHex(c.link)))
+		case *dirNode:
+			idx := len(lines)
+			lines = append(lines, "")
+
+			names := make([]string, 0, len(c.children))
+			for n := range c.children {
+				names = append(names, n)
+			}
+
+			sort.Strings(names)
+
+			for _, n := range names {
+				visit(c.children[n])
+			}
+
+			ents := make([]string, 0, len(names))
+			for _, n := range names {
+				ents = append(ents, fmt.Sprintf("%s>%d", verifHex(n), seen[c.children[n]]))
+			}
+
+			lines[idx] = fmt.Sprintf("%d:d:%o:%d:%d:m%d[%s]", me, verifPerm(c.mode), c.uid, c.gid, c.mtime, strings.Join(ents, ","))
+		}
+	}
+
+	visit(vfs.rootNode)
+
+	return "dump " + strings.Join(lines, " ")
+}
+
+// VerifHandle returns the internal state of an open file (verification hook).
+func (f *MemFile) VerifHandle() string {
+	if f == nil {
+		return "nil"
+	}
+
+	return fmt.Sprintf("at=%d closed=%v idx=%d", f.at, f.nd == nil, f.dirIndex)
+}
